@@ -56,6 +56,8 @@ fn main() {
     }
     let thorough = tier == "thorough";
     silence_panics();
+    std::fs::create_dir_all(&outdir).unwrap();
+    set_current_file(format!("{}/current.txt", outdir));
     let mut out = Out::new();
     match cmd.as_str() {
         "C01" => {
@@ -70,6 +72,8 @@ fn main() {
         "C03" => {
             std::fs::create_dir_all(&outdir).unwrap();
             c03::generate(&mut out, seed, thorough, &outdir);
+            let mut rng = Rng::new(seed ^ 0xC03EF);
+            coeffs::generate(&mut out, &mut rng, if thorough { 12000 } else { 1500 }, if thorough { 24 } else { 8 }, &[0, 1, 2, 3, 4, 5, 6]);
         }
         "C04" => c04::generate(&mut out, seed, thorough),
         "C05" => rprops::gen_c05(&mut out, seed, thorough),
@@ -105,6 +109,7 @@ fn main() {
         }
     }
     let _ = extra;
+    clear_current();
     std::fs::create_dir_all(&outdir).unwrap();
     let mut f = std::io::BufWriter::new(std::fs::File::create(format!("{}/requests.txt", outdir)).unwrap());
     for l in &out.lines {
